@@ -465,6 +465,41 @@ theorem histQuantile_no_finite_bound_witness :
     evalHQ linInterp (histogramQuantile (.fin 1) noFiniteBoundHist) = .pinf := by
   constructor <;> decide +kernel
 
+/-- The hypothesis "Count = sum of the bucket counts" of `ConsistentHist` is needed as well: when Count exceeds
+    what the buckets hold and the rank lies beyond them, the code falls back to `bucket.Upper` of the LAST ITERATED
+    bucket — the highest bucket under forward iteration (q < 1/2) but the LOWEST one under reverse iteration
+    (q ≥ 1/2), although the comment in quantile.go says "upper bound of the highest explicit bucket":
+    q = 2/5 ↦ 2, q = 1/2 ↦ 1. -/
+def inconsistentCountHist : NHist XR :=
+  { custom := true, count := .fin 10, sum := .fin 3, nNeg := 0, nPos := 2,
+    fwd := [⟨.fin 0, .fin 1, .fin 1⟩, ⟨.fin 1, .fin 2, .fin 1⟩],
+    rev := [⟨.fin 1, .fin 2, .fin 1⟩, ⟨.fin 0, .fin 1, .fin 1⟩] }
+
+theorem histQuantile_inconsistent_count_witness :
+    evalHQ linInterp (histogramQuantile (.fin (2/5)) inconsistentCountHist) = .fin 2 ∧
+    evalHQ linInterp (histogramQuantile (.fin (1/2)) inconsistentCountHist) = .fin 1 := by
+  constructor <;> decide +kernel
+
+/-- quantiles outside [0,1] and NaN: -Inf below 0, +Inf above 1, NaN for NaN — classic and native alike,
+    whatever the buckets are -/
+theorem quantile_special_cases (almost : XR → XR → Bool) (buckets : List (Bucket XR)) (h : NHist XR) (q : Rat) :
+    bucketQuantileWith almost .nan buckets = .ok ⟨.nan, zeroInfo⟩ ∧
+    (q < 0 → bucketQuantileWith almost (.fin q) buckets = .ok ⟨.ninf, zeroInfo⟩) ∧
+    (1 < q → bucketQuantileWith almost (.fin q) buckets = .ok ⟨.pinf, zeroInfo⟩) ∧
+    (q < 0 → evalHQ linInterp (histogramQuantile (.fin q) h) = .ninf) ∧
+    (1 < q → evalHQ linInterp (histogramQuantile (.fin q) h) = .pinf) ∧
+    evalHQ linInterp (histogramQuantile .nan h) = .nan := by
+  refine ⟨by simp [bucketQuantileWith, XR.isNaN], ?_, ?_, ?_, ?_, ?_⟩
+  · intro hq; simp [bucketQuantileWith, XR.isNaN, hq]
+  · intro hq
+    have : ¬ q < 0 := by grind
+    simp [bucketQuantileWith, XR.isNaN, hq, this]
+  · intro hq; simp [histogramQuantile, hq, evalHQ]
+  · intro hq
+    have : ¬ q < 0 := by grind
+    simp [histogramQuantile, hq, this, evalHQ]
+  · simp [histogramQuantile, XR.lt, XR.isNaN, evalHQ]
+
 /-- the statement: fraction ∈ [0,1] and monotone under interval nesting (`fb` = exponential in-bucket fraction,
     any function with values in [0,1] that is monotone in `v`) -/
 def fraction_in_unit_and_mono_full : Prop :=
